@@ -93,3 +93,19 @@ Qed.
 Example hull_pre_example :
   kernel_pre_hull [((0,0),1); ((0,2),1); ((2,1),1); ((1,1),1); ((5,5),2)] [2; 1] = true.
 Proof. vm_compute. reflexivity. Qed.
+
+(* ------------------------------------------------------------------ round 6: the kernel AS WRITTEN.
+   CONVEX() evaluates the cross product in a C int.  C02's as-written model hull_label_w (Model.HullW)
+   equals the exact one when every coordinate is at most M with M*M < 2^31 (C02_wrap_transfer), i.e.
+   M <= 46340; so inside that bound the write bound holds for the compiled arithmetic.  Above it the
+   kernel can repeat a vertex and overrun the label's rows (known finding F22). *)
+From Centro Require Model.HullW Proofs.HullWrap Props.C02.
+
+Theorem hull_label_write_bound_as_written : forall M m pts slack, M * M < 2147483648 ->
+  (forall q, In q pts -> HullWrap.inbox M q) -> label_ok m pts -> 0 <= slack ->
+  zlen (HullW.hull_label_w m pts slack) <= slack + zlen pts.
+Proof.
+  intros M m pts slack HM Hbox Hok Hs.
+  rewrite (Centro.Props.C02.C02_wrap_transfer M m pts slack HM Hbox).
+  apply hull_no_overflow; assumption.
+Qed.
